@@ -164,6 +164,10 @@ impl Ctx {
     self.findings.exclusion_active(name)
   }
 
+  pub fn exclusions(&self) -> Vec<String> {
+    self.findings.active_exclusions()
+  }
+
   pub fn add_part(&self, name: &str, st: Stats) {
     self.parts.lock().unwrap().push((name.to_string(), st));
   }
